@@ -270,9 +270,10 @@ class Gen13:
         if not ls or k < 0.25:
             x = self.fresh('ys')
             n = r.randint(1, 3)
-            sc[x] = ('L', n)
             self.features.add('list-new')
-            return [Node('assign', PV(x), Node('list', [self.rexpr(sc, 1) for _ in range(n)]))]
+            st = Node('assign', PV(x), Node('list', [self.rexpr(sc, 1) for _ in range(n)]))
+            sc[x] = ('L', n)
+            return [st]
         src = r.choice(ls)
         n = sc[src][1]
         if k < 0.45:
@@ -293,10 +294,21 @@ class Gen13:
         if k < 0.9:
             p, a, b = self.fresh('p'), self.fresh('a'), self.fresh('b')
             self.features.add('tuple')
+            sts = [Node('assign', PV(p), Node('tuple', [self.rexpr(sc, 1), V(src)])),
+                   Node('assign', Node('ptuple', [PV(a), PV(b)]), V(p))]
             sc[a] = 'R'
             sc[b] = sc[src]
-            return [Node('assign', PV(p), Node('tuple', [self.rexpr(sc, 1), V(src)])),
-                    Node('assign', Node('ptuple', [PV(a), PV(b)]), V(p))]
+            return sts
+        if k < 0.96:
+            # a list of lists, sliced: the rows of the slice are the rows of the original
+            rows, sl, row = self.fresh('rows'), self.fresh('sl'), self.fresh('row')
+            other = r.choice(ls)
+            self.features.add('nested-slice')
+            sts = [Node('assign', PV(rows), Node('list', [V(src), V(other)])),
+                   Node('assign', PV(sl), Node('slice', V(rows), lit(0), lit(1))),
+                   Node('assign', PV(row), Node('ref', V(sl), lit(0)))]
+            sc[row] = sc[src]
+            return sts
         x = self.fresh('s')
         sc[x] = 'R'
         self.features.add('sum')
